@@ -258,6 +258,13 @@ def intersectionMatrix {σ β} (inside : σ → Inside) (attr : Tree → β) (mo
     (ts : List Tree) : List (String × List β) :=
   (inVolumeDict (fun v => inVolumeList (inside v) mode ts) vols).map fun kv => (kv.1, kv.2.map attr)
 
+/-- `intersection_matrix(x, [vol, …], attr)` with a *list* of volumes: keyed by `Volume.name`; duplicated names raise
+`ValueError` (`none`) — the same check `in_volume` applies to a list (since fix 5cc1939; before, `{v.name: v for v in
+volumes}` silently kept only the last volume of a name). -/
+def intersectionMatrixList {σ β} (inside : σ → Inside) (attr : Tree → β) (mode : Mode) (vols : List (String × σ))
+    (ts : List Tree) : Option (List (String × List β)) :=
+  if (vols.map (·.1)).Nodup then some (intersectionMatrix inside attr mode (mkDict vols) ts) else none
+
 /-! ## `snap` -/
 
 def sq (a : Int) : Int := a * a
